@@ -151,6 +151,10 @@ def check_relations(r, viol):
             getattr(r, name)
         except Exception as exc:  # noqa: BLE001
             viol.append(V("dir_name_raises", q=name, exc=type(exc).__name__))
+    # ... and still None after everything else has been evaluated (no dependence on the access order)
+    for name in (AUTO_ONLY if iscsd else CROSS_ONLY):
+        if getattr(r, name) is not None:
+            viol.append(V("not_None_for_other_mode_after_other_reads", q=name, iscsd=iscsd))
 
 
 def check_measurement(r, which, us, viol):
@@ -203,6 +207,9 @@ def check_dataframe(r, viol):
             per_bin.append(name)
     missing = sorted(set(per_bin) - set(df.columns))
     extra = sorted(set(df.columns) - set(per_bin))
+    na = sorted(set(df.columns) & set(AUTO_ONLY if r.iscsd else CROSS_ONLY))
+    if na:
+        viol.append(V("dataframe_has_columns_of_the_other_mode", cols=na, iscsd=r.iscsd))
     if missing or extra:
         viol.append(V("dataframe_columns", missing=missing, extra=extra))
     for name in df.columns:
@@ -266,6 +273,8 @@ class ResultHistory(TracedMachine):
         self.pool = [build(kind, seed)]
         ref = build(kind, seed)
         self.canon = {name: getattr(ref, name) for name in ALL_NAMES}
+        for name in (AUTO_ONLY if ref.iscsd else CROSS_ONLY):
+            self.canon[name] = None
 
     @precondition(lambda self: self.pool)
     @rule(i=st.integers(0, 7), name=st.sampled_from(ALL_NAMES))
@@ -275,6 +284,8 @@ class ResultHistory(TracedMachine):
     def do_read(self, i, name):
         obj = self.pool[i % len(self.pool)]
         self.nreads += 1
+        if name in (AUTO_ONLY if obj.iscsd else CROSS_ONLY) and getattr(obj, name) is not None:
+            self.flag("not_None_for_other_mode", q=name, iscsd=obj.iscsd, kind=self.kind)
         if not same(getattr(obj, name), self.canon[name]):
             self.flag("value_depends_on_history", q=name, obj=i % len(self.pool), kind=self.kind)
 
